@@ -133,6 +133,8 @@ class IncludeEngine(Engine):
       calls = [['text', "f.a = 1\ninclude '%s'\nf.b = 2\n" % entry, sk]]
     else:
       calls = [['fab', [entry], ['f.a = 77', 'g.a = 78'], rng.choice([None, True, False]), sk]]
+    if rng.random() < 0.35 and calls[0][0] != 'fab':
+      calls = calls + [copy.deepcopy(calls[0])]      # parse the same thing again (after a failure: same failure)
     if nreaders == 1 and not any(files):
       files[0] = {}
     return {'regs': c16.REGS, 'consts': [], 'files': files, 'prefixes': prefixes, 'modules': c16.MODULES,
@@ -225,17 +227,21 @@ class IncludeEngine(Engine):
           fobs, _ = fm.run()
         finally:
           fm.close()
-        if C.jsonable(fobs[1]) != C.jsonable(obs[1]):
+        if C.jsonable(fobs[1]) != C.jsonable(obs[len(case['calls'])]):
           fails.append(('include-not-in-place', 'store after parsing %r; store after parsing the flattened text %r: %r' %
-                        (C.jsonable(obs[1]), C.jsonable(fobs[1]), flat)))
+                        (C.jsonable(obs[len(case['calls'])]), C.jsonable(fobs[1]), flat)))
         got_opened = [o for o in opened]
-        want_opened = [o for o in expected_opened if o[0] != 0]
+        want_opened = [o for o in expected_opened if o[0] != 0] * len(case['calls'])
         if got_opened != want_opened:
           fails.append(('wrong-file-opened', 'readers opened %r, the location-major rule selects %r' % (got_opened, want_opened)))
         if call[0] == 'fab':
           want_lock = True if call[3] is None else call[3]
           if obs[-1] != want_lock:
             fails.append(('entry-point-finalize-default', 'finalize_config=%r: locked=%r' % (call[3], obs[-1])))
+    if len(case['calls']) == 2 and call[0] != 'fab':
+      if C.jsonable(obs[0]) != C.jsonable(obs[1]) and not (isinstance(obs[0], T) and obs[0].tag == 'Ok'):
+        fails.append(('failed-parse-poisons-later-parse', 'first attempt %r, identical second attempt %r' %
+                      (C.jsonable(obs[0]), C.jsonable(obs[1]))))
     if not stable:
       fails.append(('parse-left-state-dirty', ''))
     return {'obs': obs, 'fails': fails[:3], 'nontrivial': multi or missing is not None, 'tags': tags}
